@@ -8,7 +8,7 @@
 EXTENDS Revocation, Json
 
 RevSeqs == UNION { [1..L -> 1..Other] : L \in 0..MaxRev }
-WitRecs == [issued : {TRUE}, idx : 0..MaxRev, o : {1}, good : BOOLEAN]
+WitRecs == [issued : {TRUE}, idx : 0..MaxRev, o : {1}, good : BOOLEAN, up : {None}]
 UpdRecs == [made : {TRUE}, first : 0..(MaxRev + 1), last : 0..MaxRev, o : {2}, memo : {None} \cup 0..MaxRev]
 
 GenInit == /\ rev \in RevSeqs
@@ -21,7 +21,7 @@ GenNext == \/ \E w \in W, k \in U : Apply(w, k)
            \/ \E k \in U, g \in 0..MaxRev, h \in 0..MaxRev, p \in BOOLEAN : Prepend(k, g, h, p)
 
 \* projection to what the harness constructs and observes (times instead of object pointers)
-PW(wt, tt) == [issued |-> wt.issued, idx |-> wt.idx, t |-> tt[wt.o], good |-> wt.good]
+PW(wt, tt) == [issued |-> wt.issued, idx |-> wt.idx, t |-> tt[wt.o], good |-> wt.good, up |-> wt.up]
 PU(ut, tt) == [made |-> ut.made, first |-> ut.first, last |-> ut.last, t |-> tt[ut.o], memo |-> ut.memo]
 EmitT == PrintT(<<"T", ToJson([rev |-> rev, wit |-> PW(wit[1], tobj), upd |-> PU(upd[1], tobj), act |-> last',
                                pwit |-> PW(wit'[1], tobj'), pupd |-> PU(upd'[1], tobj')])>>)
